@@ -1,3 +1,4 @@
 SPECIFICATION Spec
 INVARIANT AsBuiltReport
 CHECK_DEADLOCK FALSE
+CONSTANT KeyMergesWsIntoHttp = FALSE
